@@ -153,6 +153,19 @@ def check_vector(v):
                 if o != ("ok", exps0):
                     bad.append({"what": "motif scores with a neutral position differ from the sum of the matrix entries under the window", "tags": dict(tags, op="get_motif_scores[neutral column]"),
                                 "vector": v, "case": {"texts": texts, "matrix": mat0.tolist()}, "expected": exps0, "observed": o})
+            # the motif given as probabilities with an explicit background whose keys come in another order than the matrix rows
+            probs = {alpha[a]: [2.0 ** -5] * k for a in range(A)}
+            bg = {alpha[a]: 2.0 ** -2 for a in reversed(range(A))}
+            for l in (0, 1):
+                probs[alpha[mp[l]]] = [2.0 ** -e for e in v["pexp"][k - 1][l]]
+                bg[alpha[mp[l]]] = 2.0 ** -v["bexp"][l]
+            o = outcome(lambda: [[float(x) for x in row] for row in get_motif_scores(seqs, PWM.from_dict(probs, background=bg)).tolist()])
+            n += 1
+            expl = [[float(x) * float(np.log(2)) for x in row] for row in v["scoresLO"][k - 1]]
+            if o[0] != "ok" or [len(r) for r in o[1]] != [len(r) for r in expl] or any(abs(g - e) > 1e-9 for gr, er in zip(o[1], expl) for g, e in zip(gr, er)):
+                bad.append({"what": "scores of a motif built from probabilities and a background differ from the log odds of each letter against its own background",
+                            "tags": dict(tags, op="get_motif_scores[from_dict background]"),
+                            "vector": v, "case": {"texts": texts, "probabilities": probs, "background": bg}, "expected": expl, "observed": o})
             # minimisers
             for w in range(k, W + 1):
                 if total < w or mp[0] > mp[1]:
